@@ -47,8 +47,6 @@ def _oracle_sig(o: dict) -> dict:
     sig = {"kind": o["kind"], "medium": o.get("medium", "-")}
     if o["kind"] == "load-exceeds-bandwidth":
         sig["nested"] = bool(o.get("nested", False))
-    if o["kind"] == "carried-data-exceeds-bandwidth":
-        sig["cause"] = o.get("cause", "unexplained")
     return sig
 
 
@@ -77,8 +75,9 @@ def run(ctx: Ctx):
     ctx.oblige("rig unit = Gen.Link.bytesPerMbit", "extractor", rig.UNIT == x_link._bytes_per_mbit(), f"{rig.UNIT}")
     ctx.cov["rule"] = ("case = (topology in {two hosts, 2-4 hosts on a switch, two switches with a trunk, hosts behind a router, hosts behind "
                        "2-3 wireless routers on one or two frequencies}, per-link bandwidth / per-frequency capacity from below one frame to "
-                       "100 Mbit, op sequence of ping / arp / raw bursts (unicast, broadcast) / ftp / interface disable-enable / tick / "
-                       "tripwire (interface toggled during a delivery)); non-trivial when some send is refused for capacity or link state, "
+                       "100 Mbit (wireless: optionally two frequency names of different capacity on one hz), op sequence of ping / arp / raw "
+                       "bursts (unicast, broadcast) / ftp / interface disable-enable / tick / tripwire (interface toggled during a delivery by a "
+                       "test double) / rcmd (interface toggled during a delivery by the real Terminal executing a remote command)); non-trivial when some send is refused for capacity or link state, "
                        "or the call tree nests at least two sends deep; distinct by canonical JSON of topology and ops")
     cases = []
     for f in sorted((VERIF / "corpus" / "C18").glob("*.json")):
@@ -129,11 +128,20 @@ def run(ctx: Ctx):
                 elif e["t"] in ("E", "F"):
                     ctx.count("iface-toggle:" + ("wired" if e["t"] == "E" else "wireless"))
         # toggles that happened inside a delivery
-        for forest in r["forests"]:
+        for forest, oi in zip(r["forests"], r["forest_ops"]):
             for e in rig.walk(forest):
                 if e["t"] in ("S", "W"):
                     if any(c["t"] in ("E", "F") for c in e["children"]):
                         ctx.count("iface-toggle-inside-delivery")
+                        ctx.count("iface-toggle-inside-delivery:" + {"rcmd": "by-the-real-Terminal", "trip": "by-the-test-double"}.get(
+                            case["ops"][oi][0], "other:" + case["ops"][oi][0]))
+        for k, v in r.get("info", {}).items():
+            ctx.count("observed:" + k, v)
+        if "topo" in case and rig.ALT_NAME in case["topo"].get("freqs", []):
+            ctx.count("topo:wireless-two-names-on-one-hz")
+            caps = dict(case["topo"]["cap"])
+            if "WIFI_2_4" in case["topo"]["freqs"] and caps.get(rig.ALT_NAME) != caps.get("WIFI_2_4"):
+                ctx.count("topo:wireless-two-names-different-capacities")
         maxdepth = max(maxdepth, d)
         ctx.count(f"depth:{min(d, 6)}")
         ctx.count("topo:" + (case["topo"]["kind"] if "topo" in case else "scenario:" + case["scenario"]["file"]))
